@@ -19,7 +19,8 @@ GEN     Gen_Xfr (= MC_Xfr with EmitBehaviours, sharded, invariants on) exports e
         octet per read, and with a segment boundary between the two length octets of every envelope; a sample
         with one boundary at EVERY stream offset; a sample with the first / middle / last envelope padded (filler
         TXT in the additional section) to exactly 4095, 4096, 4097, 16383, 16384, 16385, 65534 and 65535 wire
-        octets; a sample run with ReadTimeout 40 ms and a consumer pausing 300 ms after its k-th envelope, every k.
+        octets; envelopes after the first without question section / with two questions (RFC 5936 2.2.2), a third
+        of the runs each; a sample run with ReadTimeout 40 ms and a consumer pausing 300 ms after its k-th envelope, every k.
 TV in   `xfr record in`: random transfers beyond the bounds (<= 40 records, <= 5 difference sequences, empty
         envelopes, <= 2 faults) -> Trace_Xfr predicts the observation.
 TV out  `xfr record out`: real dns.Server on an in-memory listener, handler = Transfer.Out, one to three requests
@@ -28,6 +29,9 @@ TV out  `xfr record out`: real dns.Server on an in-memory listener, handler = Tr
         Trace_Tsig + `tsig judge` (every MAC = HMAC over the specification's digest input chained on the previous
         MAC, timers only from the 2nd envelope, every answer validated from scratch on the MAC of its own request;
         TsigStatus of the request; single-bit alterations of the envelopes verified as Transfer.ReadMsg would).
+        Transfers with an envelope of ninety 800-octet records (> 64 KiB): Out reports an error or every record arrives.
+        One transfer whose last envelope is handed over 2.1 s late: the time signed of every envelope is not more than
+        a second older than its hand-over (Tsig!SignedNotBefore).
 
 Finding shared with C11, repaired in /repo by c2100c2: tsig/verify:accepts-invalid:tsig-class-altered (the class of the
 TSIG record was not covered by the MAC; seen on the first envelope of signed transfers in TV out).
@@ -63,6 +67,9 @@ Mutants (checks/mutants/C15, each must give exit 1):
   id-check-uses-origid            (seeded change C15-10) GEN (fault-not-reported:hdrid), TV in
   timed-handoff-drops-envelopes   (seeded change C15-11) GEN slow-consumer sample (xfr/in-slow-consumer-*), TV in
   frame-size-off-by-one           (seeded change C15-12) GEN (65535-octet envelopes), TV in
+  out-truncates-big-envelope      (seeded change C15-13) TV out (Trace_Xfr: wire # chunks without an error from Out)
+  striptsig-assumes-one-question  (seeded change C15-14) GEN (error-on-clean-transfer with later-questions "none" / "two", TSIG on), TV in
+  out-shared-tsig-stub            (seeded change C15-15) TV out (tsig judge: tsig/sign:stale-time-signed:server-out)
   length-prefix-single-read       (seeded change C15-9) GEN ("prefix" / "byte" segmentation of every behaviour), TV in
   server-timersonly-not-reset     (seeded change C15-3) TV out (tsig judge: accepts-invalid:mac:server-out on the 2nd answer of a connection)
 """
